@@ -156,7 +156,10 @@ func RecordTo(inport drivers.In, bpm float64, filename string) (stop func() erro
 	_stop, _err := file.RecordFrom(inport, bpm)
 
 	if _err != nil {
-		_stop()
+		// nothing is recording (RecordFrom returns no stop function together with an error)
+		if _stop != nil {
+			_stop()
+		}
 		return nil, _err
 	}
 
